@@ -3,6 +3,10 @@ specification and which generated behaviours are replayed on the real code."""
 import json, os
 
 CRASH_OWNERS = {"C09", "C15", "C18"}
+# a driver / walk of these families that is ended by the watchdog (goroutines stuck on a lock) or leaves the bubble
+# deadlocked: the outcome the family's own property prescribes has not materialised (C12 "never hangs", C13 "never
+# blocks the inbound path", C14 "data keeps flowing", C05 "arrives", C16 "keeps serving")
+FAMILY_HANG_OWNERS = {"clienttxn": "C12", "keepalive": "C14", "clientconn": "C13", "relaytcp": "C16", "tcp": "C16", "relay": "C05", "ledger": "C15"}
 
 CORE = "MC_core.tla"
 
